@@ -89,6 +89,15 @@ def gen_spec(rng, kind=None):
             spec["custom_rungs"] = rng.choice([[[4, 1], [2, 3], [1, 9]], [[3, 1], [1, 2]], [[6, 1], [3, 2], [2, 4], [1, 8]]])
             spec["max_t"] = spec["custom_rungs"][-1][1]
             spec["brackets"] = rng.choice([None] + list(range(1, len(spec["custom_rungs"]) + 1)))
+        if kind == "dehb" and rng.random() < 0.3:
+            # a straggler: the first resumed trial (non-base rung of the first bracket) runs on a worker that is
+            # 20-60x slower, so the other workers get ahead into later brackets (also the next one of offset 0)
+            f = rng.randint(20, 60)
+            spec.update(custom_rungs=rng.choice([[[9, 1], [5, 3], [3, 9]], [[6, 1], [3, 2], [2, 4], [1, 8]], [[4, 1], [3, 2], [2, 4]]]),
+                        brackets=2, n_workers=rng.randint(3, 4), delete_checkpoints=True, straggler_factor=f,
+                        polls=2 * f + rng.randint(20, 60), max_steps=rng.choice([2, 3]), fail_den=None,
+                        nan_den=rng.choice([None, None, 5]))
+            spec["max_t"] = spec["custom_rungs"][-1][1]
         if kind == "sync":
             # the Tuner installs RemoveCheckpointsCallback itself iff delete_checkpoints; a user may also add it
             spec["remove_callback"] = spec["delete_checkpoints"] or rng.random() < 0.3
